@@ -75,6 +75,8 @@ From Coq Require Import Permutation.
 From AV Require Import LatEngine.LatSyntax LatEngine.LatEval LatEngine.LatPlan LatEngine.LatSem LatEngine.LatBase LatEngine.LatHead.
 From AV Require Import LatEngine.LatKeys LatEngine.LatScc LatEngine.LatMain LatEngine.LatVocab LatEngine.LatExample.
 From AV Require Import LatEngine.LatRBase LatEngine.LatRerun LatEngine.LatTimeout LatEngine.LatRExample.
+(* the executable histories the tie evaluates next to the real code (gen/c14_lat.py): built and audited with this file *)
+From AV Require Import LatEngine.LatRScript.
 
 (* whatever run_timeout returns, at whatever point the deadline struck: the rows left are a legal input (declared
    arities, lattice elements, ONE ROW PER KEY); the input rows are in place, their values only went up; plain relations
